@@ -35,6 +35,30 @@ type Rec3[A, B, C any] struct {
 // Bag is a named slice type (fp.GenericKindNewType: the representation is the old type).
 type Bag[T any] []T
 
+// Dict is a named map type (NewType; representation map[K]V): its key instance is a component
+// like any other.
+type Dict[K comparable, V any] map[K]V
+
+// Arr2 is a named array type; the representation is the pair of its elements. With a
+// comparable element type it is an array usable as a map key.
+type Arr2[T any] [2]T
+
+func DictGeneric[K comparable, V any]() fp.Generic[Dict[K, V], map[K]V] {
+	return fp.Generic[Dict[K, V], map[K]V]{
+		Type: "tbl.Dict", Kind: fp.GenericKindNewType,
+		To:   func(d Dict[K, V]) map[K]V { return d },
+		From: func(m map[K]V) Dict[K, V] { return m },
+	}
+}
+
+func Arr2Generic[T any]() fp.Generic[Arr2[T], fp.Tuple2[T, T]] {
+	return fp.Generic[Arr2[T], fp.Tuple2[T, T]]{
+		Type: "tbl.Arr2", Kind: fp.GenericKindStruct,
+		To:   func(a Arr2[T]) fp.Tuple2[T, T] { return fp.Tuple2[T, T]{I1: a[0], I2: a[1]} },
+		From: func(t fp.Tuple2[T, T]) Arr2[T] { return Arr2[T]{t.I1, t.I2} },
+	}
+}
+
 func BoxGeneric[T any]() fp.Generic[Box[T], hlist.Cons[T, hlist.Nil]] {
 	return fp.Generic[Box[T], hlist.Cons[T, hlist.Nil]]{
 		Type: "tbl.Box", Kind: fp.GenericKindStruct,
@@ -172,6 +196,20 @@ func (n *Node) step(tok string) *Node {
 			if strings.HasPrefix(tok, "[") && tok != "[]" {
 				return kid(repr, 0)
 			}
+		case "Generic:Dict":
+			if tok == "{key}" {
+				return kid(repr, 0)
+			}
+			if strings.HasPrefix(tok, "{") && tok != "{}" {
+				return kid(repr, 1)
+			}
+		case "Generic:Arr2":
+			if tok == "[0]" {
+				return kid(repr, 0)
+			}
+			if tok == "[1]" {
+				return kid(repr, 1)
+			}
 		}
 	}
 	return n
@@ -214,7 +252,7 @@ func (n *Node) NodeAt(path string) (at, alloc *Node) {
 			alloc = cur
 		case "[]", "{}":
 			alloc = cur
-			if cur.Label == "Generic:Bag" && len(cur.Kids) > 0 {
+			if (cur.Label == "Generic:Bag" || cur.Label == "Generic:Dict") && len(cur.Kids) > 0 {
 				alloc = cur.Kids[0]
 			}
 		}
@@ -233,6 +271,29 @@ type Expr struct {
 	Labels  []string                            // distinct combinators in the expression
 	Pairs   []string                            // distinct parent>child combinator pairs
 	SubGens []string                            // Given:int … / Generic:Box … labels
+	// MutPos: the component positions that hold a component needing a deep copy (one that
+	// contains Ptr/Slice/Seq/GoMap), as "<combinator>.<index>" – GoMap.0 is the KEY instance,
+	// HCons.0/.1 head/tail, Tuple7.3 the fourth component; the positions of the representation
+	// of a Generic are named "Generic:Pair/Tuple2.0" ….
+	MutPos []string
+	// KeyInsts: the root combinators of the GoMap key instances that need a deep copy
+	// ("Ptr", "Tuple2", "Option", "Generic", "HCons"), and the depths (number of combinators
+	// above the map) at which such maps occur.
+	KeyInsts  []string
+	KeyDepths []int
+}
+
+func containsAlloc(n *Node) bool {
+	switch n.Comb() {
+	case "Ptr", "Slice", "Seq", "GoMap":
+		return true
+	}
+	for _, k := range n.Kids {
+		if containsAlloc(k) {
+			return true
+		}
+	}
+	return false
 }
 
 // Exprs is filled by the init functions of the generated packages.
@@ -245,20 +306,36 @@ func Mk[T any](name string, depth int, tree *Node, inst fp.Clone[T]) {
 		c := inst.Clone(*(v.Addr().Interface().(*T)))
 		return reflect.ValueOf(&c).Elem()
 	}
-	ls, ps, sg := map[string]bool{}, map[string]bool{}, map[string]bool{}
-	var rec func(n *Node)
-	rec = func(n *Node) {
+	ls, ps, sg, mp, ki := map[string]bool{}, map[string]bool{}, map[string]bool{}, map[string]bool{}, map[string]bool{}
+	kd := map[int]bool{}
+	var rec func(n *Node, d int)
+	rec = func(n *Node, d int) {
 		ls[n.Comb()] = true
 		if n.Label != n.Comb() {
 			sg[n.Label] = true
 		}
-		for _, k := range n.Kids {
+		name := n.Comb()
+		if n.Parent != nil && n.Parent.Comb() == "Generic" {
+			name = n.Parent.Label + "/" + n.Comb()
+		}
+		for i, k := range n.Kids {
 			ps[n.Comb()+">"+k.Comb()] = true
-			rec(k)
+			if containsAlloc(k) {
+				mp[name+"."+strconv.Itoa(i)] = true
+				if n.Comb() == "GoMap" && i == 0 {
+					ki[k.Comb()] = true
+					kd[d] = true
+				}
+			}
+			rec(k, d+1)
 		}
 	}
-	rec(tree)
-	e.Labels, e.Pairs, e.SubGens = keys(ls), keys(ps), keys(sg)
+	rec(tree, 0)
+	e.Labels, e.Pairs, e.SubGens, e.MutPos, e.KeyInsts = keys(ls), keys(ps), keys(sg), keys(mp), keys(ki)
+	for d := range kd {
+		e.KeyDepths = append(e.KeyDepths, d)
+	}
+	sort.Ints(e.KeyDepths)
 	Exprs = append(Exprs, e)
 }
 
